@@ -108,6 +108,9 @@ class Result:
         # keep the first few per key so that distinct mechanisms are all shown
         same = sum(1 for v in self.violations if v["key"] == key)
         if same < 3 and len(self.violations) < MAX_VIOLATIONS_KEPT:
+            dev = sys.modules.get("vf.sim.device")
+            if dev is not None and "chunk_policy" not in extra:
+                extra["chunk_policy"] = getattr(dev, "LAST_POLICY", "as-written")   # how the simulated device's stream was cut (needed to replay)
             self.violations.append({"key": key, "what": what, "case": case, **extra})
 
     # -- (de)serialisation ---------------------------------------------------
